@@ -9,6 +9,7 @@ import (
 	"os/exec"
 	"strconv"
 	"strings"
+	"syscall"
 	"time"
 
 	"verif/engine/term"
@@ -58,6 +59,9 @@ func startProc(kind Kind, timeoutMS int) (*proc, error) {
 	case CVC5:
 		cmd = exec.Command("cvc5", "--incremental", "--produce-models", fmt.Sprintf("--tlimit-per=%d", timeoutMS))
 	}
+	// the solver must not outlive the checker (a killed or timed-out check would otherwise leave solvers spinning on
+	// their last query)
+	cmd.SysProcAttr = &syscall.SysProcAttr{Pdeathsig: syscall.SIGKILL}
 	in, err := cmd.StdinPipe()
 	if err != nil {
 		return nil, err
@@ -549,6 +553,7 @@ func CrossCheck(kind Kind, scriptPath string, seconds int) string {
 	default:
 		cmd = exec.Command("cvc5", fmt.Sprintf("--tlimit=%d", seconds*1000), scriptPath)
 	}
+	cmd.SysProcAttr = &syscall.SysProcAttr{Pdeathsig: syscall.SIGKILL}
 	out, _ := cmd.CombinedOutput()
 	for _, l := range strings.Split(string(out), "\n") {
 		l = strings.TrimSpace(l)
